@@ -55,3 +55,11 @@ Definition spec_ok (c : case) (o : sx) : bool :=
       | None => false
       end
   end.
+
+(* the cases the theorems speak about (Props/C16.v): annotations in typing's normal form, outside the two known
+   findings, pipelines inside the modelled fragment *)
+Definition valid (c : case) : bool :=
+  match c with
+  | CPair a b => wf a && wf b && notv a
+  | CPipe fs v => no_autogen fs && pipe_guard fs
+  end.
